@@ -214,12 +214,20 @@ func TestCheck(t *testing.T) {
 	if f := flag.Lookup("replay"); f != nil && f.Value.String() != "" {
 		if b, err := os.ReadFile(f.Value.String()); err == nil {
 			var rc struct {
-				Case struct {
+				Property string `json:"property"`
+				Case     struct {
 					Workload string `json:"workload"`
 				} `json:"case"`
 			}
-			if json.Unmarshal(b, &rc) == nil && rc.Case.Workload != "" {
-				name = rc.Case.Workload
+			if json.Unmarshal(b, &rc) == nil {
+				switch {
+				case rc.Case.Workload != "":
+					name = rc.Case.Workload
+				case name == "" && rc.Property != "":
+					// the driver's own artefacts (data-race, crash-in-parallel-run)
+					// carry the race report and the property only
+					name = strings.ToLower(rc.Property)
+				}
 			}
 		}
 	}
